@@ -28,10 +28,13 @@ structure AEnv where
   proposer : Height → Round → Addr
   valid : Val → Bool
 
-open Classical in
+/-- Sum of `pw a` over the members `a` of `l` (with multiplicity) that satisfy `P`. -/
+noncomputable def wsumL (l : List Addr) (pw : Addr → Nat) (P : Addr → Prop) : Nat :=
+  (l.map (fun a => @ite Nat (P a) (Classical.propDecidable (P a)) (pw a) 0)).sum
+
 /-- Voting power (at height `h`) of the validators satisfying `P`. -/
 noncomputable def AEnv.wsum (E : AEnv) (h : Height) (P : Addr → Prop) : Nat :=
-  (E.vals.map (fun a => if P a then E.power h a else 0)).sum
+  wsumL E.vals (E.power h) P
 
 /-- Total voting power `N` at height `h`. -/
 noncomputable def AEnv.N (E : AEnv) (h : Height) : Nat := E.wsum h (fun _ => True)
